@@ -248,3 +248,10 @@ def IntervalTier_insertSpace(self, start, duration, collisionMode):
 def PointTier_insertSpace(self, start, duration, _collisionMode):
     out = [p if p.time <= start else Point(p.time + duration, p.label) for p in self.entries]
     return PointTier(self.name, out, self.minTimestamp, self.maxTimestamp + duration)
+
+
+# ---- C15: queries ----------------------------------------------------------------------
+
+
+def getValuesInInterval(dataTupleList, start, end):
+    return [d for d in dataTupleList if start <= d[0] and d[0] <= end]
